@@ -174,6 +174,9 @@ func (c *Ctx) c17Check(in c17Inst, d int) {
 	if !c.c17Applicable(in, c17Docs[d], goDoc) {
 		return
 	}
+	if strings.Contains(in.lhs, "pad_") {
+		return
+	}
 	l := c.LibSearch(in.lhs, goDoc)
 	r := c.LibSearch(in.rhs, goDoc)
 	if in.dropNulls && r.Err == nil && r.Panic == nil && r.MErr == nil {
@@ -297,7 +300,7 @@ func c17Random(c *Ctx, idx int) {
 				continue
 			}
 		}
-		if !c.c17Applicable(in, doc, goDoc) {
+		if !c.c17Applicable(in, doc, goDoc) || strings.Contains(in.lhs, "pad_") {
 			continue
 		}
 		l := c.LibSearch(in.lhs, goDoc)
